@@ -580,7 +580,10 @@ theorem resolveRes_guess (st : Static) (defs defs' : Defs) (c : RCtx) (ref : Nat
     split at h
     · cases h
     · rename_i n hn
-      simp only [hn, guessOf_bank]
+      split at h
+      · cases h
+      rename_i hlt
+      simp only [hn, guessOf_bank, hlt, ↓reduceIte]
       rcases ite_inv _ _ _ _ h with ⟨_, h⟩ | ⟨_, h⟩
       · injection h with h; injection h with _ h2; injection h2 with h2 _; cases h2
       · injection h with h; injection h with h1 _
